@@ -11,11 +11,11 @@ import (
 )
 
 type ModSet struct {
-	Old   map[string]bool
-	Fresh map[string]bool
-	Sorts map[string]Sort
-	Types map[string]types.Type
-	All   bool
+	Old      map[string]bool
+	Fresh    map[string]bool
+	Sorts    map[string]Sort
+	Types    map[string]types.Type
+	All      bool
 	FreshAll bool // may allocate objects of any type (writes nothing that existed before)
 }
 
@@ -195,7 +195,8 @@ func (p *Program) localMods(sv *VC, f *ssa.Function, in ssa.Instruction, ms *Mod
 		note("Msize", true)
 	case *ssa.MapUpdate:
 		has, val, _, _ := sv.mapComps(x.Map.Type().Underlying().(*types.Map))
-		_, fresh := x.Map.(*ssa.MakeMap)
+		mm, fresh := x.Map.(*ssa.MakeMap)
+		fresh = fresh && inFreshScope(mm)
 		note(has, fresh)
 		note(val, fresh)
 		note("Msize", fresh)
@@ -314,8 +315,7 @@ func (p *Program) addrMods(sv *VC, addr ssa.Value, valT types.Type, note func(st
 			return
 		}
 		c, _, _ := sv.fieldCompOf(st, base.Field)
-		_, fresh := base.X.(*ssa.Alloc)
-		note(c, fresh)
+		note(c, isFreshAlloc(base.X))
 	case *ssa.IndexAddr:
 		var et types.Type
 		fresh := false
@@ -325,7 +325,7 @@ func (p *Program) addrMods(sv *VC, addr ssa.Value, valT types.Type, note func(st
 			fresh = freshSlice(a.X, map[ssa.Value]bool{})
 		case *types.Pointer:
 			et = t.Elem().Underlying().(*types.Array).Elem()
-			_, fresh = a.X.(*ssa.Alloc)
+			fresh = isFreshAlloc(a.X)
 		}
 		c, _ := sv.elemComp(et)
 		note(c, fresh)
@@ -337,7 +337,8 @@ func (p *Program) addrMods(sv *VC, addr ssa.Value, valT types.Type, note func(st
 		note(c, false)
 	case *ssa.Alloc:
 		et := a.Type().Underlying().(*types.Pointer).Elem()
-		p.typeComps(sv, et, func(c string) { note(c, true) })
+		fr := inFreshScope(a)
+		p.typeComps(sv, et, func(c string) { note(c, fr) })
 	default:
 		// store through a pointer value
 		et := addr.Type().Underlying().(*types.Pointer).Elem()
@@ -478,6 +479,20 @@ func (p *Program) typedModSet(vc *VC, tc *Contract) *ModSet {
 // freshSlice: is the backing array of slice value v certainly allocated by the current function
 // activation?  (make, composite literal, append to such a slice, or a phi of such values; a nil
 // slice counts: appending to it allocates.)
+// freshScope: when set (while the effects of a loop body are classified), "fresh" means allocated
+// inside these blocks - an object allocated earlier in the function exists when the loop is entered
+// and a write to it is visible after the loop.
+var freshScope map[*ssa.BasicBlock]bool
+
+func inFreshScope(in ssa.Instruction) bool {
+	return freshScope == nil || freshScope[in.Block()]
+}
+
+func isFreshAlloc(v ssa.Value) bool {
+	al, ok := v.(*ssa.Alloc)
+	return ok && inFreshScope(al)
+}
+
 func freshSlice(v ssa.Value, seen map[ssa.Value]bool) bool {
 	if seen[v] {
 		return true // a cycle through phis adds no other source
@@ -485,13 +500,12 @@ func freshSlice(v ssa.Value, seen map[ssa.Value]bool) bool {
 	seen[v] = true
 	switch x := v.(type) {
 	case *ssa.MakeSlice:
-		return true
+		return inFreshScope(x)
 	case *ssa.Const:
 		return x.Value == nil
 	case *ssa.Slice:
 		if al, ok := x.X.(*ssa.Alloc); ok {
-			_ = al
-			return true
+			return inFreshScope(al)
 		}
 		if _, ok := x.X.Type().Underlying().(*types.Slice); ok {
 			return freshSlice(x.X, seen)
@@ -510,13 +524,13 @@ func freshSlice(v ssa.Value, seen map[ssa.Value]bool) bool {
 		}
 		// slices returned by pure standard-library functions (strings.Split ...) are newly allocated
 		if fn, ok := x.Call.Value.(*ssa.Function); ok && fn.Pkg != nil && purePkgs[fn.Pkg.Pkg.Path()] && fn.Signature.Recv() == nil {
-			return true
+			return inFreshScope(x)
 		}
 		return false
 	case *ssa.Convert:
 		// []rune(s), []byte(s)
 		_, fromString := x.X.Type().Underlying().(*types.Basic)
-		return fromString
+		return fromString && inFreshScope(x)
 	case *ssa.ChangeType:
 		return freshSlice(x.X, seen)
 	case *ssa.UnOp:
